@@ -604,12 +604,19 @@ def s_loc(rng, ins):
     if not df.index.is_monotonic_increasing or not len(df):
         return None
     a, b = sorted([rng.randrange(len(df)), rng.randrange(len(df))])
-    return {"lo": df.index[a], "hi": df.index[b]}
+    lo, hi = df.index[a], df.index[b]
+    if isinstance(lo, pd.Timestamp):
+        return {"lo": lo.isoformat(), "hi": hi.isoformat(), "ts": True}
+    if isinstance(lo, (np.integer,)):
+        lo, hi = int(lo), int(hi)
+    elif isinstance(lo, (np.floating,)):
+        lo, hi = float(lo), float(hi)
+    return {"lo": lo, "hi": hi}
 
 
 def a_loc(lib, ins, p):
     lo, hi = p["lo"], p["hi"]
-    if isinstance(lo, str) and len(lo) > 8 and lo[4:5] == "-":
+    if p.get("ts"):
         lo, hi = pd.Timestamp(lo), pd.Timestamp(hi)
     return ins[0].loc[lo:hi]
 
@@ -745,13 +752,11 @@ def a_gb_transform(lib, ins, p):
         return g.cumsum()
     if p["kind"] == "cumcount":
         return g.cumcount()
+    # no user meta: an inaccurate meta (dtype or index name) makes empty partitions carry the stand-in's schema,
+    # which is the user's assertion, not dask-expr's (two triaged false alarms); dask-expr infers the meta itself
     if p["kind"] == "transform":
-        if lib == "dx":
-            return g.transform("sum", meta=(p["col"], "f8"))
-        return g.transform("sum").astype("f8")
-    if lib == "dx":
-        return g.apply(_gb_apply_fn, meta=(p["col"], "f8"))
-    return g.apply(_gb_apply_fn).astype("f8")
+        return g.transform("sum")
+    return g.apply(_gb_apply_fn)
 
 
 def f_gb_transform(ins, p, res):
